@@ -214,6 +214,9 @@ func monitor(c fw.Case, out []string) []string {
 			break
 		}
 		toks := strings.Fields(ln)
+		if toks[0] == "value.e2eprev" {
+			continue
+		}
 		if toks[0] == "value.e2em" {
 			fails = append(fails, monitorMulti(i, ln, out[i])...)
 			continue
@@ -506,7 +509,9 @@ var Prop = &fw.Prop{
 	NewReal:  func() fw.Real { return fw.RealFunc(exec) },
 	Monitor:  monitor,
 	Shrink:   shrinkCase,
-	RealOnly: func(line string) bool { return strings.HasPrefix(line, "value.rjson") },
+	RealOnly: func(line string) bool {
+		return strings.HasPrefix(line, "value.rjson") || strings.HasPrefix(line, "value.e2eprev")
+	},
 	// the monitor addresses lines by their index in the script
 	FixedLayout: true,
 	Sigs: map[string]func(fw.Case, []string, string) bool{
